@@ -342,6 +342,11 @@ def run_case(seed, root, params=None):
             stats['census_events'] = stats.get('census_events', 0) + \
                 len(events)
             n = params.get('points_per_scenario')
+            all_coords = coordinates(events, rng, None)
+            key = 'scenarios_exhaustive' if (n is None or
+                                             n >= len(all_coords)) \
+                else 'scenarios_sampled'
+            stats[key] = stats.get(key, 0) + 1
             for fault in coordinates(events, rng, n):
                 h = one(fault)
                 if h.violations and not params.get('all_points'):
@@ -367,7 +372,11 @@ def run_case(seed, root, params=None):
 
 PARAMS = {
     'quick': {'budget': 80, 'points_per_scenario': 10},
-    'thorough': {'budget': 1200, 'points_per_scenario': None},
+    # thorough: every crash point of a scenario, unless it has more than 160
+    # coordinates (then a biased sample of 160; such scenarios are counted
+    # under `scenarios_sampled`, the others under `scenarios_exhaustive`)
+    'thorough': {'budget': 1200, 'points_per_scenario': 160,
+                 'case_timeout': 1500},
 }
 
 EVIDENCE = {
